@@ -97,10 +97,16 @@ def fvalue(attr, alpha, r, c):
     return vals[(2 * r + c) % m] if m == 3 else vals[(r + c) % m]
 
 
-def attr_value(attr, shape, alpha, n, ncol):
-    """the value handed to RTFBody, always as a nested list (1x1, 1xncol, nxncol)"""
+def attr_value(attr, shape, alpha, n, ncol, shift=0):
+    """the value handed to RTFBody, always as a nested list (1x1, 1xncol, nxncol); "tuple": a Python tuple with one value per
+    row (rtflite's column-vector form, recycled across the columns).  shift moves along the alphabet (sections of a
+    multi-section document get different values of the same attribute)"""
+    if shift:
+        return _shifted(attr_value(attr, shape, alpha, n, ncol), attr, alpha, shift)
     if shape == "scalar":
         return [[fvalue(attr, alpha, 1, 0)]]
+    if shape == "tuple":
+        return tuple(fvalue(attr, alpha, r, 0) for r in range(n))
     if shape == "row":
         if attr in ROW_ATTRS:
             return [[fvalue(attr, alpha, 1, 0)] * ncol]
@@ -115,6 +121,18 @@ def attr_value(attr, shape, alpha, n, ncol):
         # a ROW PATTERN of R rows, 1 < R < nrow, recycled down the table: original row r shows pattern[r mod R]
         return [[fvalue(attr, alpha, r, c) for c in range(ncol)] for r in range(pattern_rows(shape))]
     return [[fvalue(attr, alpha, r, c) for c in range(ncol)] for r in range(n)]
+
+
+def _shifted(val, attr, alpha, shift):
+    """replace every value by the one `shift` places further in its alphabet"""
+    vals = (CELL_ATTRS.get(attr) or ROW_ATTRS.get(attr))[1][alpha]
+
+    def mv(v):
+        return vals[(vals.index(v) + shift) % len(vals)]
+
+    if isinstance(val, tuple):
+        return tuple(mv(v) for v in val)
+    return [[mv(v) for v in row] for row in val]
 
 
 def pattern_rows(shape):
@@ -158,7 +176,7 @@ def case_spec(case: dict, nrow=None) -> dict:
             nsl += 1
     for pos, name in sorted(ins, key=lambda t: -t[0]):
         order.insert(pos, name)
-    spec = {"n": n, "cols": ["sb"] * k, "colorder": order, "header": case.get("header", "none"), "title": 0,
+    spec = {"n": n, "cols": ["sb"] * k if k > 1 else ["s"], "colorder": order, "header": case.get("header", "none"), "title": 0,
             "page": {"nrow": nrow if nrow is not None else case["nrow"]}}
     if npb:
         spec["page_by"] = [key_vector(n, l) for l in range(npb)]
@@ -167,17 +185,21 @@ def case_spec(case: dict, nrow=None) -> dict:
     if case.get("new_page"):
         spec["new_page"] = True
         spec["pageby_row"] = "first_row"
+    spec["body"] = body_kwargs(case.get("attrs"), n, len(order))
+    return spec
+
+
+def body_kwargs(attrs, n, ncol):
     body = {}
-    for attr, (shape, alpha) in sorted((case.get("attrs") or {}).items()):
-        body[attr] = attr_value(attr, shape, alpha, n, len(order))
+    for attr, sa in sorted((attrs or {}).items()):
+        body[attr] = attr_value(attr, sa[0], sa[1], n, ncol, sa[2] if len(sa) > 2 else 0)
     # a border colour is only observable on a border that exists
-    for attr in case.get("attrs") or {}:
+    for attr in attrs or {}:
         if attr.startswith("border_color_"):
             side = "border_" + attr[len("border_color_"):]
             if side not in body:
                 body[side] = "single"
-    spec["body"] = body
-    return spec
+    return body
 
 
 # --------------------------------------------------------------------------- observation
@@ -244,8 +266,9 @@ def blank_kind(r, j):
     return None
 
 
-def observe(doc, shown):
-    """-> cells {(r, j): obs}, rows {r: {...}}, pages [[r,...]]; problems list"""
+def observe(doc, shown, tag="D", blanks=True):
+    """-> cells {(r, j): obs}, rows {r: {...}}, pages [[r,...]]; problems list.  Only the data rows whose sentinel letter is
+    `tag` (one table section); page starts / first / last rows are those of this section on each parsed page"""
     cells, rows, pages, problems = {}, {}, [], []
     for pi, pg in enumerate(doc.pages):
         prs = []
@@ -254,7 +277,7 @@ def observe(doc, shown):
             if blk.kind != "row":
                 continue
             role, info = docspec.block_role(blk)
-            if role != "data":
+            if role != "data" or info[0] != tag:
                 seg_start = None
                 continue
             r = info[1]
@@ -277,10 +300,10 @@ def observe(doc, shown):
                     continue
                 j = int(name[1:])
                 tg = docspec.tag_of(cell.text)
-                blank = blank_kind(r, j)
+                blank = blank_kind(r, j) if blanks else None
                 if blank is None:
-                    if not tg or (tg[0], tg[1], tg[2]) != ("D", r, j):
-                        problems.append(f"cell at position {pos} of data row {r} reads {cell.text!r}, expected D{r}.{j}")
+                    if not tg or (tg[0], tg[1], tg[2]) != (tag, r, j):
+                        problems.append(f"cell at position {pos} of data row {r} reads {cell.text!r}, expected {tag}{r}.{j}")
                         continue
                 elif cell.text != "":
                     problems.append(f"{blank} cell at position {pos} of data row {r} reads {cell.text!r}, expected an empty cell")
@@ -423,19 +446,26 @@ def consistency(pairs, ordered):
 # --------------------------------------------------------------------------- evaluation
 
 
-def render(spec):
-    b = docspec.build(spec)
-    body = b.doc.rtf_body
-    settings = {}
-    for attr in ALL_ATTRS:
-        settings[attr] = getattr(body, attr)  # public fields of the constructed component
-    # deep copy of the plain lists (encoding may touch the component)
+def settings_of(body, given):
+    """what a body specifies: the public fields of the constructed component, and for what the case itself handed over the
+    case's own value (never read back); a tuple is one value per row (column vector)"""
     import copy
 
-    settings = copy.deepcopy(settings)
-    # what the case itself handed over is taken from the case, not read back
-    for attr, val in (spec.get("body") or {}).items():
-        settings[attr] = copy.deepcopy(val)
+    settings = {}
+    for attr in ALL_ATTRS:
+        settings[attr] = getattr(body, attr)
+    settings = copy.deepcopy(settings)  # encoding may touch the component
+    for attr, val in (given or {}).items():
+        settings[attr] = [[v] for v in val] if isinstance(val, tuple) else copy.deepcopy(val)
+    return settings
+
+
+def render(spec):
+    b = docspec.build(spec)
+    if b.sections:
+        settings = [settings_of(sb.doc[0], sb.spec.get("body")) for sb in b.sections]
+    else:
+        settings = settings_of(b.doc.rtf_body, spec.get("body"))
     out = b.doc.rtf_encode()
     return b, settings, parse(out)
 
@@ -449,9 +479,12 @@ def twin_of(case, order):
     hit = _TWINS.get(key)
     if hit is None:
         try:
-            b2, _, doc2 = render(case_spec(case, nrow=HUGE))
-            cells2, rows2, pages2, _ = observe(doc2, b2.shown)
-            hit = (cells2, rows2, pages2, len(doc2.pages))
+            b2, _, doc2 = render(multi_spec(case, nrow=HUGE) if case.get("sections") else case_spec(case, nrow=HUGE))
+            if b2.sections:
+                hit = [observe(doc2, sb.shown, tag="ABCDE"[i], blanks=len(sb.shown) > 1)[:3] + (len(doc2.pages),) for i, sb in enumerate(b2.sections)]
+            else:
+                cells2, rows2, pages2, _ = observe(doc2, b2.shown, blanks=case.get("k", K) > 1)
+                hit = (cells2, rows2, pages2, len(doc2.pages))
         except Exception as e:
             hit = f"{type(e).__name__}: {e}"
         if len(_TWINS) > 16:
@@ -460,8 +493,14 @@ def twin_of(case, order):
     return hit
 
 
-def o_blank(key):
-    return blank_kind(key[0], key[1])
+def multi_spec(case, nrow=None):
+    """2-3 table sections (3 data columns each, no removal) with their own body attributes"""
+    secs = []
+    for sc in case["sections"]:
+        order = [f"c{j}" for j in range(K)]
+        secs.append({"n": sc["n"], "cols": ["sb"] * K, "colorder": order, "header": "none",
+                     "body": body_kwargs(sc.get("attrs"), sc["n"], K)})
+    return {"kind": "multi", "sections": secs, "title": 0, "page": {"nrow": nrow if nrow is not None else case["nrow"]}}
 
 
 def classify_cell_mismatches(ms, shapes, cells, rows, settings, colidx):
@@ -494,30 +533,8 @@ def classify_cell_mismatches(ms, shapes, cells, rows, settings, colidx):
     return res
 
 
-def eval_case(case: dict) -> dict:
-    viol, cnt = [], {}
-    shapes = {a: sa[0] for a, sa in (case.get("attrs") or {}).items()}
-
-    def add(klass, attr, kind, detail, count=1):
-        viol.append({"klass": klass, "sig": f"{klass or 'unclassified'}:{attr}:{kind}", "detail": detail + (f" [{count} cell(s)/row(s) in this document]" if count > 1 else "")})
-
-    spec = case_spec(case)
-    try:
-        b, settings, doc = render(spec)
-    except Exception as e:
-        return {"viol": [{"klass": None, "sig": f"encode-raised-{type(e).__name__}", "detail": f"{type(e).__name__}: {e}"}],
-                "nt": False, "cnt": {"encode-raised": 1}}
-    if doc.errors:
-        add(None, "document", "unparseable", str(doc.errors[:3]))
-    order = b.colnames
-    colidx = {j: order.index(f"c{j}") for j in range(case.get("k", K))}
-    cells, rows, pages, problems = observe(doc, b.shown)
-    for p in problems:
-        add(None, "document", "structure", p)
-    n = case["n"]
-    if len(cells) != n * len(colidx):
-        add(None, "document", "cells-missing", f"{len(cells)} tagged data cells found, {n * len(colidx)} expected")
-
+def judge(add, cnt, shapes, settings, colidx, cells, rows, twin, nrow, npages, tagl="D"):
+    """both oracles for ONE table (section): (a) direct rule, row-level consistency, (b) comparison with the huge-nrow twin"""
     # (a) direct rule
     ms = direct(cells, rows, settings, colidx)
     klasses = classify_cell_mismatches(ms, shapes, cells, rows, settings, colidx)
@@ -525,7 +542,7 @@ def eval_case(case: dict) -> dict:
         lst = [m for m in ms if m["attr"] == attr]
         m = lst[0]
         add(klasses[attr], attr, "direct",
-            f"{attr} ({shapes.get(attr, 'not varied')}): {(m['blank'] + ' ') if m['blank'] else ''}cell D{m['r']}.{m['j']} (original column {m['c']}, page starting at row {rows[m['r']]['p']}) "
+            f"{attr} ({shapes.get(attr, 'not varied')}): {(m['blank'] + ' ') if m['blank'] else ''}cell {tagl}{m['r']}.{m['j']} (original column {m['c']}, page starting at row {rows[m['r']]['p']}) "
             f"shows {m['prop']}={show(m['obs'])}, the attribute specifies {show(m['exp'])}", len(lst))
 
     # row-level attributes: consistency
@@ -542,9 +559,7 @@ def eval_case(case: dict) -> dict:
             add(klass, attr, "direct", f"{attr} ({shapes.get(attr, 'not varied')}): {probs[0]}", len(probs))
 
     # (b) metamorphic: same table, huge nrow
-    npages = len(doc.pages)
-    if case["nrow"] != HUGE:
-        twin = twin_of(case, order)
+    if nrow != HUGE:
         if isinstance(twin, str):
             add(None, "document", "metamorphic", f"unpaginated twin raised {twin}")
         else:
@@ -553,7 +568,7 @@ def eval_case(case: dict) -> dict:
             for key, o in sorted(cells.items()):
                 o2 = cells2.get(key)
                 if o2 is None:
-                    add(None, "document", "metamorphic", f"cell D{key[0]}.{key[1]} missing in the unpaginated twin")
+                    add(None, "document", "metamorphic", f"cell {tagl}{key[0]}.{key[1]} missing in the unpaginated twin")
                     continue
                 r = key[0]
                 c = colidx[key[1]]
@@ -589,7 +604,7 @@ def eval_case(case: dict) -> dict:
                         diffs.setdefault((attr, k), []).append((key, prop, o[prop], o2[prop]))
             for (attr, k), lst in sorted(diffs.items(), key=str):
                 key, prop, a, bb = lst[0]
-                add(k, attr, "metamorphic", f"{attr} ({shapes.get(attr, 'not varied')}): {(o_blank(key) + ' ') if o_blank(key) else ''}cell D{key[0]}.{key[1]} has {prop}={show(a)} with nrow={case['nrow']} "
+                add(k, attr, "metamorphic", f"{attr} ({shapes.get(attr, 'not varied')}): {(cells[key]['blank'] + ' ') if cells[key]['blank'] else ''}cell {tagl}{key[0]}.{key[1]} has {prop}={show(a)} with nrow={nrow} "
                     f"({npages} pages) but {show(bb)} with nrow={HUGE} ({npages2} pages)", len(lst))
             for attr, (prop, _) in ROW_ATTRS.items():
                 bad = [r for r in sorted(rows) if r in rows2 and rows[r][prop] != rows2[r][prop]]
@@ -599,9 +614,81 @@ def eval_case(case: dict) -> dict:
                                                                         ordered=(attr == "cell_height")):
                         klass = "matrix-row-rebased-per-page"
                     r = bad[0]
-                    add(klass, attr, "metamorphic", f"{attr} ({shapes.get(attr, 'not varied')}): row {r} emitted as {rows[r][prop]!r} with nrow={case['nrow']} "
+                    add(klass, attr, "metamorphic", f"{attr} ({shapes.get(attr, 'not varied')}): row {r} emitted as {rows[r][prop]!r} with nrow={nrow} "
                         f"but {rows2[r][prop]!r} with nrow={HUGE}", len(bad))
             cnt["metamorphic-pairs"] = 1
+
+
+def eval_multi(case: dict) -> dict:
+    """multi-section document: every section's cells are judged against THAT section's body"""
+    viol, cnt = [], {}
+
+    def adder(si):
+        def add(klass, attr, kind, detail, count=1):
+            viol.append({"klass": klass, "sig": f"{klass or 'unclassified'}:{attr}:{kind}:section",
+                         "detail": f"section {si + 1} of {len(case['sections'])}: " + detail + (f" [{count} cell(s)/row(s)]" if count > 1 else "")})
+        return add
+
+    try:
+        b, settings, doc = render(multi_spec(case))
+    except Exception as e:
+        return {"viol": [{"klass": None, "sig": f"encode-raised-{type(e).__name__}", "detail": f"{type(e).__name__}: {e}"}],
+                "nt": False, "cnt": {"encode-raised": 1}}
+    if doc.errors:
+        adder(0)(None, "document", "unparseable", str(doc.errors[:3]))
+    npages = len(doc.pages)
+    twin = twin_of(case, None) if case["nrow"] != HUGE else None
+    colidx = {j: j for j in range(K)}
+    later_paginated = False
+    for si, (sb, sc) in enumerate(zip(b.sections, case["sections"])):
+        add = adder(si)
+        tagl = "ABCDE"[si]
+        cells, rows, pages, problems = observe(doc, sb.shown, tag=tagl)
+        for p in problems:
+            add(None, "document", "structure", p)
+        if len(cells) != sc["n"] * K:
+            add(None, "document", "cells-missing", f"{len(cells)} data cells found, {sc['n'] * K} expected")
+        shapes = {a: sa[0] for a, sa in (sc.get("attrs") or {}).items()}
+        tw = twin if (twin is None or isinstance(twin, str)) else twin[si]
+        judge(add, cnt, shapes, settings[si], colidx, cells, rows, tw, case["nrow"], npages, tagl)
+        cnt["cells-checked"] = cnt.get("cells-checked", 0) + len(cells)
+        if si > 0 and sum(1 for p in pages if p) > 1:
+            later_paginated = True
+    cnt["multi-section-documents"] = 1
+    if later_paginated:
+        cnt["multi-section-later-section-paginated"] = 1
+    return {"viol": viol, "nt": True, "cnt": cnt, "sample": None}
+
+
+def eval_case(case: dict) -> dict:
+    if case.get("sections"):
+        return eval_multi(case)
+    viol, cnt = [], {}
+    shapes = {a: sa[0] for a, sa in (case.get("attrs") or {}).items()}
+
+    def add(klass, attr, kind, detail, count=1):
+        viol.append({"klass": klass, "sig": f"{klass or 'unclassified'}:{attr}:{kind}", "detail": detail + (f" [{count} cell(s)/row(s) in this document]" if count > 1 else "")})
+
+    spec = case_spec(case)
+    try:
+        b, settings, doc = render(spec)
+    except Exception as e:
+        return {"viol": [{"klass": None, "sig": f"encode-raised-{type(e).__name__}", "detail": f"{type(e).__name__}: {e}"}],
+                "nt": False, "cnt": {"encode-raised": 1}}
+    if doc.errors:
+        add(None, "document", "unparseable", str(doc.errors[:3]))
+    order = b.colnames
+    colidx = {j: order.index(f"c{j}") for j in range(case.get("k", K))}
+    cells, rows, pages, problems = observe(doc, b.shown, blanks=case.get("k", K) > 1)
+    for p in problems:
+        add(None, "document", "structure", p)
+    n = case["n"]
+    if len(cells) != n * len(colidx):
+        add(None, "document", "cells-missing", f"{len(cells)} tagged data cells found, {n * len(colidx)} expected")
+
+    npages = len(doc.pages)
+    twin = twin_of(case, order) if case["nrow"] != HUGE else None
+    judge(add, cnt, shapes, settings, colidx, cells, rows, twin, case["nrow"], npages)
 
     cnt["cells-checked"] = len(cells)
     for (r, j), o in cells.items():
@@ -616,6 +703,8 @@ def eval_case(case: dict) -> dict:
         cnt["one-row-per-page"] = 1
     if case.get("removal"):
         cnt[f"removed-{len(case['removal'])}"] = 1
+    if case.get("k", K) == 1:
+        cnt["one-displayed-column-by-removal" if case.get("removal") else "one-displayed-column-by-construction"] = 1
     for a, s in shapes.items():
         s = shape_family(s)
         cnt[f"shape-{s}"] = cnt.get(f"shape-{s}", 0) + 1
@@ -708,12 +797,16 @@ def plan(run):
     run.rule = ("every body attribute (25) x shape {scalar, 1 x ncol, nrow x ncol, row pattern of R rows with 1 < R < nrow (R in 2,3; thorough also 4,7) recycled "
                 "down the table: original row r shows pattern[r mod R], per-column vector of k values with 2 <= k < ORIGINAL column count (k = 2 and "
                 "ncol-1; thorough every k) recycled across the original columns: original column c shows vector[c mod k], one 3 x 2 grid short in "
-                "both directions; the column-short shapes on a reduced nrow ladder}, values alphabet[(2r+c) mod 3] over the ORIGINAL frame shape "
+                "both directions; the column-short shapes on a reduced nrow ladder; tuple form = one value per row recycled across the columns}, values alphabet[(2r+c) mod 3] over the ORIGINAL frame shape "
                 f"x rows {sizes} x nrow ladder from one row per page to one page x column removal {{none; page_by or subline_by removing 1 column at "
                 "every position; four 2-column removals (thorough: every position pair)}} incl. page_by with new_page; 3 data columns, one cell per row blank (null / empty string on a diagonal, so blanks hit first, middle and last rows and page starts). Quick: one "
                 "attribute at a time, one of three value alphabets per attribute rotated by VERIF_SEED; thorough: all three alphabets and every "
                 "position pair for tables of <= 9 rows, first alphabet for 16 and 40 rows, plus all pairs of attributes x shapes on a reduced layout set. Every case is evaluated by the direct rule and against its huge-nrow twin. "
-                "non-trivial = >= 2 pages, or a column removed, or a non-scalar shape; distinct = distinct case")
+                "Plus: tables with exactly ONE displayed column (1 data column, alone or with page_by / subline_by columns removed) x {nrow x 1 matrix, "
+                "3 x 1 pattern, tuple} and tuple-form attributes on the 3-column tables; 2-/3-section documents whose section bodies differ in one "
+                "attribute ({scalar, other scalar}, {scalar, matrix}, {matrix, scalar}, {unset, scalar}, {scalar, unset}), later sections paginated, "
+                "every cell judged against its own section's body. "
+                "non-trivial = >= 2 pages, or a column removed, or a non-scalar shape, or several sections; distinct = distinct case")
     run.assumptions = [
         "every data row has exactly one blank cell ((r + j) mod 3 == 0: null on even rows, \"\" on odd rows) and two tagged ones; cells are "
         "identified by position within their tagged row, and a blank cell's character formatting is read from its text-less run group "
@@ -769,6 +862,48 @@ def plan(run):
                                     c["removal"] = rem
                                 cases.append(c)
     run.layer("one-attribute", "mc.props.c09:eval_case", cases, chunk=40, total=len(cases))
+
+    # tables with exactly ONE displayed column (by construction, and because page_by / subline_by removed the others):
+    # nrow x 1 attributes; and attributes in tuple form (one value per row, recycled across the columns)
+    single = []
+    rems1 = [None, [["pb", 0]], [["sl", 1]], [["pb", 0], ["sl", 1]]] + ([] if quick else [[["pb", 1]], [["sl", 0]], [["pb", 0], ["pb", 1]]])
+    for ai, attr in enumerate(ALL_ATTRS):
+        nalpha = len((CELL_ATTRS.get(attr) or ROW_ATTRS.get(attr))[1])
+        for alpha in ([(run.seed + ai) % nalpha] if quick else range(nalpha)):
+            for rem in rems1:
+                for n, shps, nrows in ((4, ("matrix", "pattern3", "tuple"), (2, HUGE) if quick else (1, 2, 3, HUGE)),
+                                       (9, ("matrix", "tuple"), (4,) if quick else (1, 2, 4, 7, HUGE))):
+                    for shape in shps:
+                        for nrow in nrows:
+                            c = {"n": n, "k": 1, "nrow": nrow, "attrs": {attr: [shape, alpha]}}
+                            if rem:
+                                c["removal"] = rem
+                            single.append(c)
+            for rem in (None, [["pb", 1]], [["sl", 0]]):
+                for n, nrows in ((4, (2, HUGE)),) if quick else ((4, (1, 2, HUGE)), (9, (2, 4, HUGE))):
+                    for nrow in nrows:
+                        c = {"n": n, "nrow": nrow, "attrs": {attr: ["tuple", alpha]}}
+                        if rem:
+                            c["removal"] = rem
+                        single.append(c)
+    run.layer("one-displayed-column-and-tuple-form", "mc.props.c09:eval_case", single, chunk=40, total=len(single))
+
+    # multi-section documents whose bodies differ in one attribute: every cell against its OWN section's body
+    multi = []
+    for attr in ALL_ATTRS:
+        two = [[["scalar", 0], ["scalar", 0, 1]], [["scalar", 0], ["matrix", 0]], [["matrix", 0], ["scalar", 0, 1]],
+               [None, ["scalar", 0]], [["scalar", 0], None]]
+        if not quick:
+            two += [[["row", 0], ["matrix", 0, 1]], [["matrix", 0], ["matrix", 0, 1]], [["pattern3", 0], ["row", 0, 1]]]
+        for sa, sb_ in two:
+            for sizes in ((2, 4),) if quick else ((2, 4), (4, 9)):
+                for nrow in (2, HUGE) if quick else (1, 2, 3, HUGE):
+                    multi.append({"sections": [{"n": sizes[0], **({"attrs": {attr: sa}} if sa else {})},
+                                               {"n": sizes[1], **({"attrs": {attr: sb_}} if sb_ else {})}], "nrow": nrow})
+        for nrow in (2,) if quick else (1, 2, HUGE):
+            multi.append({"sections": [{"n": 2, "attrs": {attr: ["scalar", 0]}}, {"n": 4, "attrs": {attr: ["matrix", 0]}},
+                                       {"n": 3, "attrs": {attr: ["scalar", 0, 1]}}], "nrow": nrow})
+    run.layer("multi-section-bodies", "mc.props.c09:eval_case", multi, chunk=30, total=len(multi))
     if not quick:
         pairs = []
         layouts = [(4, 2), (9, 4), (9, HUGE)]
@@ -784,7 +919,9 @@ def plan(run):
                             c["removal"] = rem
                         pairs.append(c)
         run.layer("attribute-pairs", "mc.props.c09:eval_case", pairs, chunk=40, total=len(pairs))
-    for need in ("pages=1", "pages>1", "one-row-per-page", "removed-1", "removed-2", "shape-scalar", "shape-row", "shape-matrix", "shape-pattern", "shape-cols", "shape-grid",
+    for need in ("pages=1", "pages>1", "one-row-per-page", "removed-1", "removed-2", "shape-scalar", "shape-row", "shape-matrix", "shape-pattern", "shape-cols", "shape-grid", "shape-tuple",
+                 "one-displayed-column-by-construction", "one-displayed-column-by-removal", "multi-section-documents",
+                 "multi-section-later-section-paginated",
                  "short-column-vector-right-of-a-removed-column",
                  "matrix-on-page-starting-off-cycle", "pattern-on-page-starting-off-cycle", "blank-null-cells-checked",
                  "blank-empty-string-cells-checked", "blank-cell-on-first-row-of-a-later-page", "blank-cell-in-last-row", "mid-page-segment", "metamorphic-pairs", "cells-checked"):
